@@ -304,6 +304,24 @@ func (rn *Runner) Run(h *History, faults map[int]string) *Trace {
 					st.Err = "barrier: " + err.Error()
 				}
 			}
+		case "lateans":
+			// the SMF answers an earlier, so far unanswered Session Report Request now
+			if op.Ref < len(tr.Steps)-1 {
+				rs := tr.Steps[op.Ref]
+				if len(rs.Reports) > 0 && rs.Reports[0].M != nil {
+					d := rs.Reports[0]
+					hdr := uint64(0)
+					if op.Answer != "seid0" {
+						hdr = rs.UP
+					}
+					smfs[rs.RepAt[0]].SendFrom(d.Sock, BuildMsg(MRepRsp, &hdr, d.M.Seq, Cause(CauseAccepted)))
+					st.Sent = true
+					st.UP = rs.UP
+					if err := env.Barrier(); err != nil {
+						st.Err = "barrier: " + err.Error()
+					}
+				}
+			}
 		case "txto":
 			// the retransmission timers of all outstanding Session Report Requests run out: every retry, then abandoned
 			answer = "ignore"
